@@ -5,7 +5,7 @@ From Coq Require Import ZArith Reals Floats Bool.
 From Flocq Require Import Core BinarySingleNaN PrimFloat.
 From Coquelicot Require Import Complex.
 From PB Require Import Proofs.TwoSumExact Model.Phase2 Proofs.Floor Proofs.DayFrac Proofs.DayFrac3 Proofs.PhaseAdd Proofs.PhaseMore
-  Proofs.DayFracTail Proofs.TwoProduct Proofs.PhaseMul Proofs.PhaseAbs Proofs.PhaseDiv Model.PhaseOrd Model.PhaseDivmod Proofs.PhaseArgmin Proofs.PhaseDivmodProofs Proofs.PhaseDivmodFloor Proofs.FmodSpec Proofs.FloorDivSpec Proofs.PhaseDivmodFinal.
+  Proofs.DayFracTail Proofs.TwoProduct Proofs.PhaseMul Proofs.PhaseAbs Proofs.PhaseDiv Model.PhaseOrd Model.PhaseDivmod Proofs.PhaseArgmin Proofs.PhaseDivmodProofs Proofs.PhaseDivmodFloor Proofs.FmodSpec Proofs.FloorDivSpec Proofs.PhaseDivmodFinal Gen.GenPhase Proofs.PhaseGen.
 Open Scope R_scope.
 Notation fexp := (FLT_exp (-1074) 53).
 Notation rnd := (round radix2 fexp ZnearestE).
@@ -200,6 +200,40 @@ Proof. exact from_angles_factor_flags. Qed.
    |frac| <= 1/2 exactly at ties; numpy's C routine = its model np_divmod (bit-exact comparison on every run);
    the ranges outside the hypotheses above (divisors beyond 2^+-100, quotients beyond 2^47, subnormal phases). *)
 
+(* tie to the source by translation (T7): day_frac statement by statement over primitive floats (the same IEEE operations in the same
+   order, for factor / divisor present or absent), the real / imaginary bookkeeping of Phase.from_angles, and what the add, subtract,
+   multiply, divide, negative, positive and absolute branches of Phase.__array_ufunc__ hand to from_angles are GENERATED from
+   pulsar/phase.py on this run; the model is proved equal to them *)
+Theorem C07_generated_day_frac : forall (val1 val2 : PrimFloat.float) (factor divisor : option PrimFloat.float),
+  day_frac_gen val1 val2 factor divisor = gen_day_frac val1 val2 factor divisor.
+Proof. exact day_frac_generated. Qed.
+Theorem C07_generated_day_frac_specialised : forall val1 val2 factor,
+  day_frac val1 val2 = gen_day_frac val1 val2 None None /\ day_frac_factor val1 val2 factor = gen_day_frac val1 val2 (Some factor) None.
+Proof. exact (fun a b c => conj (day_frac_plain_generated a b) (day_frac_factor_generated a b c)). Qed.
+Theorem C07_generated_from_angles : forall (p1 : num) (p2 factor divisor : option num),
+  from_angles p1 p2 factor divisor = gen_from_angles p1 p2 factor divisor.
+Proof. exact from_angles_generated. Qed.
+Theorem C07_generated_addsub : forall (sub : bool) (a b : operand),
+  op_addsub sub a b =
+  match to_phase a, to_phase b with
+  | Some pa, Some pb =>
+    if Bool.eqb (p_imag pa) (p_imag pb) then
+      let args := gen_addsub_args (if sub then nsub else nadd) pa pb in
+      of_opt (from_angles (fst args) (Some (snd args)) None None)
+    else RDecay
+  | _, _ => RErr
+  end.
+Proof. exact op_addsub_generated. Qed.
+Theorem C07_generated_mul_div : forall (p : ph) (x : num),
+  op_mul p x = match (let '(a, b, fc, dv) := gen_mul_args p x in from_angles a (Some b) fc dv) with Some r => RPh r | None => RDecay end /\
+  op_div p x = match (let '(a, b, fc, dv) := gen_div_args p x in from_angles a (Some b) fc dv) with Some r => RPh r | None => RDecay end.
+Proof. exact (fun p x => conj (op_mul_generated p x) (op_div_generated p x)). Qed.
+Theorem C07_generated_unary : forall p : ph,
+  op_neg p = of_opt (from_angles (fst (gen_neg_args p)) (Some (snd (gen_neg_args p))) None None) /\
+  op_pos p = of_opt (from_angles (fst (gen_pos_args p)) (Some (snd (gen_pos_args p))) None None) /\
+  op_abs p = of_opt (let '(a, b, s) := gen_abs_args p in from_angles a (Some b) (Some s) None).
+Proof. exact (fun p => conj (op_neg_generated p) (conj (op_pos_generated p) (op_abs_generated p))). Qed.
+
 Print Assumptions C07_two_sum_exact.
 Print Assumptions C07_floor.
 Print Assumptions C07_construct.
@@ -219,3 +253,6 @@ Print Assumptions C07_abs_branch.
 Print Assumptions C07_add_branch.
 Print Assumptions C07_imag_factor.
 Print Assumptions C07_from_angles_flags.
+Print Assumptions C07_generated_day_frac.
+Print Assumptions C07_generated_from_angles.
+Print Assumptions C07_generated_unary.
